@@ -85,6 +85,14 @@ def parse_output(out):
     return res
 
 
+def _target_dir(root, k, cwd):
+    """one Kani target directory per (unit family, source tree): artifacts of /repo must never be
+    reused for a scratch copy (measured: a stale goto binary made a mutant pass)"""
+    import hashlib
+    tag = hashlib.sha1(os.path.realpath(cwd).encode()).hexdigest()[:8]
+    return os.path.join(root, ".cache", "kani-target-%s-%s" % (k.get("target_tag", "repo"), tag))
+
+
 def _cargo_kani_cmd(k, target_dir, harnesses, extra=None):
     cmd = [CARGO, "kani"]
     if k.get("package"):
@@ -120,7 +128,7 @@ def run_unit(k, repo, root, build_root, tier):
             res["undecided"].append("extraction: %s" % e)
             res["wall_s"] = time.time() - t0
             return res
-    target_dir = os.path.join(root, ".cache", "kani-target-" + k.get("target_tag", "repo"))
+    target_dir = _target_dir(root, k, cwd)
     os.makedirs(target_dir, exist_ok=True)
     # trusted-base scan of the harness file(s)
     for hf in k.get("harness_files", []):
@@ -174,11 +182,14 @@ def run_unit(k, repo, root, build_root, tier):
                                  "sample_obligations": ["%d CBMC checks (assertions, overflow, bounds, "
                                                         "pointer validity) for harness %s" % (r["checks"], short)]})
         res["smt_time_ms"] += int((r["time"] or 0) * 1000)
-        if r["status"] == "failed":
+        if r["status"] == "failed" and r["failed_checks"] and all("unwinding assertion" in c for c in r["failed_checks"]):
+            res["undecided"].append("harness %s: unwinding bound too small (%s)" % (short, r["failed_checks"][0]))
+        elif r["status"] == "failed":
             rec = {"function": short, "kind": "kani-check", "message": "; ".join(r["failed_checks"])[:600]
                    or "verification failed", "gen_line": None, "text": h, "source": k.get("source_hint"),
                    "labels": [], "id": "%s/%s/kani-check" % (name, short)}
-            cex = counterexample(k, target_dir, cwd, h)
+            # concrete playback re-runs the harness: do it for the first failures only
+            cex = counterexample(k, target_dir, cwd, h) if len(res["failures"]) < 2 else None
             if cex:
                 rec["counterexample"] = cex
             res["failures"].append(rec)
@@ -223,7 +234,7 @@ def replay(rep, repo, root):
     `cargo kani playback` runs it as an ordinary `#[test]`: the real function is executed natively
     on the counterexample and the harness assertion fails there."""
     import registry
-    cex = rep.get("counterexample") or {}
+    cex = rep.get("counterexample") or {"harness": (rep.get("failed_obligation") or {}).get("text")}
     print(cex.get("playback_test", ""))
     k = None
     for prop, spec in registry.PROPS.items():
@@ -236,7 +247,7 @@ def replay(rep, repo, root):
     cwd = k["cwd"](repo, root) if callable(k.get("cwd")) else (k.get("cwd") or repo)
     if k.get("prepare"):
         k["prepare"](repo, root)
-    target_dir = os.path.join(root, ".cache", "kani-target-" + k.get("target_tag", "repo"))
+    target_dir = _target_dir(root, k, cwd)
     files = [os.path.join(root, f) for f in k.get("harness_files", [])]
     backups = {f: open(f, encoding="utf-8").read() for f in files}
     try:
